@@ -462,6 +462,15 @@ func init() {
 	intrinsics["crypto/subtle.ConstantTimeEq"] = func(e *Engine, fn *ssa.Function, a []Value) Value {
 		return e.ts.ZExt(e.ts.Ite(e.ts.Eq(a[0].(*Term), a[1].(*Term)), e.ts.Const(1, 1), e.ts.Const(1, 0)), 64)
 	}
+	// Duration.Minutes() = d / 6e10 as an exact rational (the real method rounds to float64;
+	// its only use here is the comparison with the integral bound 10, see DESIGN.md C09).
+	intrinsics["(time.Duration).Minutes"] = func(e *Engine, fn *ssa.Function, a []Value) Value {
+		d := a[0].(*Term)
+		if d.Op == OpConst {
+			return e.callSSA(fn, a, nil)
+		}
+		return RatFloat{I: d, Den: 60_000_000_000}
+	}
 	intrinsics["math/bits.Mul64"] = func(e *Engine, fn *ssa.Function, a []Value) Value {
 		x, y := a[0].(*Term), a[1].(*Term)
 		if x.Op == OpConst && y.Op == OpConst {
